@@ -915,7 +915,10 @@ def run(ctx):
                    "empty pieces, blanks behind the dash, exclusion words hostlist_create refuses (unbalanced brackets) at "
                    "every position among well-formed exclusions (the others must still act), several words in ONE -w argument "
                    "in every order of {target, -exclusion, /re/, -/re/} (the word after a dashed one), arguments holding only "
-                   "filters x $WCOLL read / ignored; library level: find/delete histories on range records; non-trivial = "
+                   "filters x $WCOLL read / ignored, command lines holding only exclusions (-x list, `-` words, -x ^file) x "
+                   "$WCOLL read / ignored, a name whose digit tail overflows strtoul (20+ digits, errno = ERANGE) at every "
+                   "position of an exclusion list / among the -x options / `-` words / in an exclusion file / among the "
+                   "targets; library level: find/delete histories on range records (also behind such a name); non-trivial = "
                    ">= 3 assembled hosts, >= 1 exclusion or filter that removes at least one "
                    "and keeps at least one host; distinct = distinct option list"}
     dist = {"profiles": {}}
